@@ -7,7 +7,9 @@ import (
 	"context"
 	"errors"
 	"fmt"
+	"io"
 	"log/slog"
+	"net"
 	"sort"
 	"testing"
 	"time"
@@ -76,6 +78,10 @@ func (u *uploader) Upload(ctx context.Context, records billstat.Records) (err er
 	}
 
 	fail := w.failNext()
+	kind := 0
+	if fail {
+		kind = s.T.Choose(5, "upload-error-kind")
+	}
 	s.Logf("upload#%d invoke@%d devices=%d fail=%v", w.uploads, invoke, len(records), fail)
 	w.uploads++
 
@@ -95,6 +101,23 @@ func (u *uploader) Upload(ctx context.Context, records billstat.Records) (err er
 
 	if fail {
 		s.Fault("upload-failed")
+
+		// The ways an upload to the backend fails: an error of the service, a
+		// deadline or a cancellation of the call, a broken connection.
+		switch kind {
+		case 1:
+			s.Fault("upload-deadline-exceeded")
+
+			return fmt.Errorf("uploading records: %w", context.DeadlineExceeded)
+		case 2:
+			s.Fault("upload-cancelled")
+
+			return fmt.Errorf("uploading records: %w", context.Canceled)
+		case 3:
+			return fmt.Errorf("uploading records: %w", io.ErrUnexpectedEOF)
+		case 4:
+			return &net.OpError{Op: "write", Net: "tcp", Err: errors.New("connection reset by peer")}
+		}
 
 		return errors.New("simulated upload failure")
 	}
